@@ -149,6 +149,8 @@ func calcOutflow(timestep int, inflow, lateral, bias, prevQi, prevOutflow, prevS
 		// Qindexmin is not small enough with zero outflow, so lets call it zero outflow
 		qi = minQI
 		outflow = 0.0
+		// nothing leaves, so the storage is what the water balance leaves in the reach (not SIndex)
+		storage = zeroOutflowStorage(inflow, lateral, initialFluxMax, prevStorage, area, netEvapRate, duration)
 		// fmt.Printf("calcOutflow-2, outflow=0, storage=%f\n", storage)
 		return
 	}
@@ -183,6 +185,7 @@ func calcOutflow(timestep int, inflow, lateral, bias, prevQi, prevOutflow, prevS
 		qi = minQI
 		outflow = 0.0
 		delta = 0.0
+		storage = zeroOutflowStorage(inflow, lateral, initialFluxMax, prevStorage, area, netEvapRate, duration)
 		// fmt.Printf("calcOutflow-4, qi=%f,delta=%f,outflow=%f,storage=%f\n", qi, delta, outflow, storage)
 		return
 	}
@@ -240,6 +243,12 @@ func calcOutflow(timestep int, inflow, lateral, bias, prevQi, prevOutflow, prevS
 		panic("outflow is nan")
 	}
 	return
+}
+
+// zeroOutflowStorage is the storage at the end of a step without outflow: the water balance of runRouting's newStorage.
+func zeroOutflowStorage(inflow, lateral, initialFluxMax, storage, area, netEvapRate, duration float64) float64 {
+	netEvaporationFlux := math.Min(initialFluxMax, area*netEvapRate)
+	return math.Max((storage + (inflow+lateral-netEvaporationFlux)*duration), 0.0)
 }
 
 func runRouting(qIndex, inflow, lateral, initialFluxMax, storage, area, netEvapRate, deadStorage, duration,
